@@ -300,6 +300,8 @@ def classify(results, wanted, stdout, prop):
             m = re.search(r"(?m)^.*%s.*(timed out|Timeout|CBMC failed|killed).*$" % re.escape(h), stdout or "")
             if m:
                 why = m.group(0).strip()[:300]
+            if "run out of memory" in (stdout or ""):
+                why += " (CBMC reported out of memory for at least one harness of this run)"
             undecided.append((h, why))
     return per, refuted, undecided
 
@@ -448,7 +450,7 @@ def main():
     ap.add_argument("--no-lemmas", action="store_true")
     ap.add_argument("--timeout", type=int, default=None)
     ap.add_argument("--no-replay", action="store_true")
-    ap.add_argument("--jobs", type=int, default=int(os.environ.get("VERIF_JOBS", "16")))
+    ap.add_argument("--jobs", type=int, default=None)
     args = ap.parse_args()
     prop = args.prop
     tier = args.tier if args.tier in ("quick", "thorough") else "quick"
@@ -464,6 +466,8 @@ def main():
     wanted = sorted(h for h in all_h if any(re.match(p, h) for p in prefixes))
     if args.only:
         wanted = [h for h in wanted if re.search(args.only, h)]
+    if args.jobs is None:
+        args.jobs = int(os.environ.get("VERIF_JOBS", cfg.get("jobs", 16)))
     timeout_s = args.timeout or cfg.get("timeout_s", {}).get(tier, 600 if tier == "quick" else 2400)
     evidence_path = os.path.join(os.environ.get("VERIF_EVIDENCE_DIR", os.path.join(VERIF, "evidence")), "%s.json" % prop)
     os.makedirs(os.path.dirname(evidence_path), exist_ok=True)
@@ -570,8 +574,11 @@ def main():
         samples = []
         for h, p in list(per.items())[:6]:
             samples.append({"harness": h, "named_obligations": p["named_list"][:8], "checks": p["checks"], "covers": "%d/%d" % (p["covers_ok"], p["covers"]), "solver_s": p["cbmc"].get("solver_s")})
+        n_known = len(known_hits)
         coverage = {
-            "obligations": n_named + n_safety + n_lemmas,
+            # obligations refuted by a recorded known finding are carved out of the proof claim and listed separately
+            "obligations": n_named + n_safety + n_lemmas - n_known,
+            "known_finding_obligations_refuted": n_known,
             "discharged": n_named_ok + n_safety_ok + n_lemmas_ok,
             "checker_cmd": (kani_cmd or "cargo kani (not run)") + (" ; verus <lemma>.rs --output-json --time" if lemma_results else ""),
             "trusted_base": cfg.get("trusted_base", []) + cfg_all.get("common_trusted_base", []),
